@@ -100,6 +100,18 @@ class FuncRef:
 class DictV:
     def __init__(self, d=None):
         self.d = dict(d or {})
+        self.keyobj = {}          # normalised key -> original key value (abstract strings, numbers)
+
+    def nkey(self, k):
+        """hashable normal form of a key; remembers the original"""
+        if isinstance(k, (str, int)) and not isinstance(k, bool):
+            return k
+        nk = repr(k)
+        self.keyobj[nk] = k
+        return nk
+
+    def okey(self, nk):
+        return self.keyobj.get(nk, nk)
 
 
 class _Return(Exception):
@@ -796,7 +808,7 @@ class Frame:
         if isinstance(it, ZipV):
             return it.items()
         if isinstance(it, DictV):
-            return list(it.d.keys())
+            return [it.okey(k) for k in it.d.keys()]
         if isinstance(it, str):
             return list(it)
         if isinstance(it, Obj) and '__lines__' in it.attrs:
@@ -844,7 +856,7 @@ class Frame:
                 base.items[i] = v
                 return
             if isinstance(base, DictV):
-                base.d[idx if isinstance(idx, str) else repr(idx)] = v
+                base.d[base.nkey(idx)] = v
                 return
             raise Unsupported('subscript store on %r' % (base,), target, self.module.relpath)
         if isinstance(target, ast.Attribute):
@@ -953,17 +965,17 @@ class Frame:
         if isinstance(n, (ast.List, ast.Tuple)):
             return ListV([self.ev(e) for e in n.elts])
         if isinstance(n, ast.Dict):
-            d = {}
+            dv = DictV()
             for k, v in zip(n.keys, n.values):
                 if k is None:
                     inner = self.ev(v)
                     if not isinstance(inner, DictV):
                         raise Unsupported('dict unpacking', n, self.module.relpath)
-                    d.update(inner.d)
+                    dv.d.update(inner.d)
+                    dv.keyobj.update(inner.keyobj)
                 else:
-                    kk = self.ev(k)
-                    d[kk if isinstance(kk, str) else repr(kk)] = self.ev(v)
-            return DictV(d)
+                    dv.d[dv.nkey(self.ev(k))] = self.ev(v)
+            return dv
         if isinstance(n, ast.ListComp):
             return self.listcomp(n)
         if isinstance(n, ast.GeneratorExp):
@@ -978,7 +990,7 @@ class Frame:
                 sub.assign(g.target, item)
                 if all(self.I.truth(sub.ev(c_), c_) for c_ in g.ifs):
                     k = sub.ev(n.key)
-                    out.d[k if isinstance(k, (str, int)) and not isinstance(k, bool) else repr(k)] = sub.ev(n.value)
+                    out.d[out.nkey(k)] = sub.ev(n.value)
             return out
         if isinstance(n, ast.Subscript):
             return self.subscript(n)
@@ -1087,7 +1099,7 @@ class Frame:
         if isinstance(base, ListV):
             return base.items[self.index(idx, len(base), n)]
         if isinstance(base, DictV):
-            k = idx if isinstance(idx, str) else repr(idx)
+            k = base.nkey(idx)
             if k in base.d:
                 return base.d[k]
             raise _RaisedExc(Raised('KeyError', n))
@@ -1129,6 +1141,8 @@ class Frame:
             return self.obj_attr(base, n.attr, n)
         if isinstance(base, ListV) and n.attr == 'T':
             return _transpose(base)
+        if isinstance(base, (str, SegStr)) and n.attr not in dir(str):
+            raise _RaisedExc(Raised('AttributeError', n))
         if isinstance(base, (ListV, Elem, Rat, SumV, DictV, str, SegStr)):
             return BoundNative(base, n.attr)
         if isinstance(base, Module):
@@ -1571,7 +1585,7 @@ def builtin_call(I, fr, name, args, kwargs, n):
                         res = True
                 continue
             if tn == 'str':
-                res = res or isinstance(v, str)
+                res = res or isinstance(v, (str, SegStr))
             elif tn == 'dict':
                 res = res or isinstance(v, DictV)
             elif tn in ('list', 'tuple'):
@@ -1580,6 +1594,8 @@ def builtin_call(I, fr, name, args, kwargs, n):
                 res = res or isinstance(v, Rat)
             elif tn == 'bool':
                 res = res or isinstance(v, bool)
+            elif tn in ('set', 'frozenset', 'bytes', 'complex'):
+                pass            # no such values in the abstract domain
             else:
                 raise Unsupported('isinstance against %r' % (x,), n)
         return res
@@ -1687,6 +1703,15 @@ def bound_native(I, fr, bn, args, kwargs, n):
         if name == 'clear':
             del b.items[:]
             return None
+        if name == 'sort' and not args and not kwargs:
+            items = list(b.items)
+            for i in range(1, len(items)):          # insertion sort through the ordering oracle (stable)
+                j = i
+                while j > 0 and I.compare('<', items[j], items[j - 1], n):
+                    items[j], items[j - 1] = items[j - 1], items[j]
+                    j -= 1
+            b.items[:] = items
+            return None
         if name == 'index':
             for i, x in enumerate(b.items):
                 if x is args[0] or (isinstance(x, str) and x == args[0]):
@@ -1701,9 +1726,9 @@ def bound_native(I, fr, bn, args, kwargs, n):
             k = args[0]
             return b.d.get(k, args[1] if len(args) > 1 else None)
         if name == 'items':
-            return ListV([ListV([k, v]) for k, v in b.d.items()])
+            return ListV([ListV([b.okey(k), v]) for k, v in b.d.items()])
         if name == 'keys':
-            return ListV(list(b.d.keys()))
+            return ListV([b.okey(k) for k in b.d.keys()])
         if name == 'values':
             return ListV(list(b.d.values()))
         if name == 'pop':
@@ -1784,6 +1809,11 @@ def abstract_str_method(I, fr, b, name, args, kwargs, n):
         if not isinstance(args[0], str):
             raise Unsupported('find() of a symbolic needle', n)
         return C(sb.find(args[0], start))
+    if name == 'rfind' and args and isinstance(args[0], str):
+        r = sb.rfind(args[0])
+        if r is None:
+            raise Unsupported('rfind(): user text after the last literal occurrence', n)
+        return C(r)
     if name in ('strip', 'lstrip', 'rstrip') and (not args or args == ['\n'] or args == [' ']):
         return I.plain(sb.strip(name, args[0] if args else None))
     if name in ('isdigit', 'isalpha'):
@@ -2067,6 +2097,26 @@ def _counter(I, fr, args, kwargs, n):
             raise Unsupported('Counter() of %r' % (args[0],), n)
         c_.d.update(args[0].d)
     return c_
+
+
+def _consecutive_groups(I, fr, args, kwargs, n):
+    """more_itertools.consecutive_groups: runs of values each exactly one more than its predecessor
+    (in the order given)"""
+    seq = args[0]
+    if not isinstance(seq, ListV):
+        raise Unsupported('consecutive_groups operand', n)
+    groups = []
+    for x in seq.items:
+        if groups:
+            d_ = I.num(x) - I.num(groups[-1][-1])
+            if d_.is_const() or d_.iszero():
+                if not d_.iszero() and d_.const_value() == 1:
+                    groups[-1].append(x)
+                    continue
+            else:
+                raise Unsupported('difference of symbolic integers is not a constant', n)
+        groups.append([x])
+    return ListV([ListV(g) for g in groups])
 
 
 def _np_isclose(I, fr, args, kwargs, n):
@@ -2401,6 +2451,7 @@ NATIVE = {
     'numpy.roots': _np_roots,
     'numpy.mean': _np_mean,
     'numpy.isclose': _np_isclose,
+    'more_itertools.consecutive_groups': _consecutive_groups,
     're.search': _re_search,
     're.findall': _re_findall,
     'collections.Counter': _counter,
